@@ -124,6 +124,9 @@ var mixes = map[string][]string{
 	rejectedMix: {"verify-rejected-links"},
 	// every goroutine loads its own RSA-2048 / P-256 / P-384 / ed25519 key pairs (private and public PEM) many times
 	loadKeysMix: {"load-keys"},
+	// every goroutine makes rounds of InTotoRun calls (own directory, own step names) whose command prints its whole
+	// environment, sorted, and its working directory
+	envMix: {"run-env-observing"},
 	"mixed": {"record", "record-nofollow", "record-gitignore", "run-command", "in-toto-run", "in-toto-run-dsse", "sign-verify",
 		"dsse-sign-verify", "dump-load", "dsse-dump-load", "load-key", "verify-artifacts", "substitute", "in-toto-verify",
 		"verify-artifacts-malformed", "error-returns", "record-start-stop", "load-unparsable"},
@@ -142,9 +145,16 @@ const (
 	multiAlgMix = "record-multi-alg"
 	rejectedMix = "verify-with-rejected-links"
 	loadKeysMix = "load-keys"
+	envMix      = "run-env-observing-command"
 )
 
-var explicitMixes = map[string]bool{cwdMix: true, sameMix: true, multiAlgMix: true, rejectedMix: true, loadKeysMix: true}
+// envRounds: calls per goroutine in the mix run-env-observing-command (C16_ENV_ROUNDS, default 6)
+var envRounds = 6
+
+// startEnviron: the environment of the harness process when it started, sorted; no library call may change it
+var startEnviron = func() []string { e := os.Environ(); sort.Strings(e); return e }()
+
+var explicitMixes = map[string]bool{cwdMix: true, sameMix: true, multiAlgMix: true, rejectedMix: true, loadKeysMix: true, envMix: true}
 
 // prepared: per task material that is generated once per batch, sequentially, before either phase (random keys and
 // certificates: the same objects must be used by the concurrent and by the sequential phase)
@@ -195,7 +205,7 @@ func genTasks(b batch) []task {
 	for k := range ts {
 		tr := r.Fork()
 		t := task{K: k}
-		if b.Mix == multiAlgMix || b.Mix == rejectedMix || b.Mix == loadKeysMix {
+		if b.Mix == multiAlgMix || b.Mix == rejectedMix || b.Mix == loadKeysMix || b.Mix == envMix {
 			seed := make([]byte, 32)
 			for i := range seed {
 				seed[i] = byte(tr.Intn(256))
@@ -209,6 +219,9 @@ func genTasks(b batch) []task {
 			}
 			if b.Mix == loadKeysMix {
 				n = 2
+			}
+			if b.Mix == envMix {
+				n = envRounds
 			}
 			for i := 0; i < n; i++ {
 				t.Ops = append(t.Ops, op{Kind: kinds[tr.Intn(len(kinds))], A: tr.Intn(1000), B: tr.Intn(1000)})
@@ -795,6 +808,43 @@ func runOp(t task, o op, i int, root string, ks keys) string {
 		script := fmt.Sprintf("cat %s/src/main.c; echo rel-%d", rel, o.A) // runDir "": the command inherits the working directory
 		return strings.ReplaceAll(showMeta(intoto.InTotoRun(fmt.Sprintf("rel-%d", i), "", []string{filepath.Join(rel, "src")}, []string{filepath.Join(rel, "src")},
 			[]string{"sh", "-c", script}, ks.priv, []string{"sha256"}, nil, []string{rel + "/"}, true, true, false)), rel, "<REL>")
+	case "run-env-observing":
+		// the command reports everything it inherits: environment (sorted) and working directory; names are unique
+		// per goroutine and call
+		name := fmt.Sprintf("step-%s-%d-%d", t.KeySeed[:8], i, o.A)
+		md, err := intoto.InTotoRun(name, root, nil, nil, []string{"sh", "-c", "env | sort; echo cwd=$(pwd); echo to-stderr >&2; exit " + strconv.Itoa(o.B%3)},
+			ks.priv, []string{"sha256"}, nil, strip, true, false, o.B%2 == 0)
+		if err != nil {
+			return errClass(err)
+		}
+		// rendered as the differences from the environment of the harness process at its start (values of unchanged
+		// variables are not copied into results and replay files)
+		bp := md.GetPayload().(intoto.Link).ByProducts
+		out, _ := bp["stdout"].(string)
+		was := map[string]bool{}
+		for _, e := range startEnviron {
+			was[e] = true
+		}
+		same, diff, rest := 0, []string{}, []string{}
+		for _, line := range strings.Split(strings.TrimSuffix(out, "\n"), "\n") {
+			switch {
+			case strings.HasPrefix(line, "cwd="):
+				rest = append(rest, line)
+			case was[line]:
+				same++
+				delete(was, line)
+			default:
+				diff = append(diff, "+"+line)
+			}
+		}
+		for e := range was {
+			if !strings.Contains(e, "\n") { // multi-line values cannot be matched line by line
+				diff = append(diff, "-"+strings.SplitN(e, "=", 2)[0])
+			}
+		}
+		sort.Strings(diff)
+		return show(map[string]any{"return-value": bp["return-value"], "stderr": bp["stderr"],
+			"environment-seen-by-the-command": map[string]any{"variables-as-at-process-start": same, "differences": diff}, "rest-of-stdout": rest}, nil)
 	case "record-multi-alg", "in-toto-run-multi-alg":
 		algs := [][]string{{"sha256", "sha384", "sha512"}, {"sha256", "sha384", "sha512"}, {"sha256"}, {"sha384"}, {"sha512"}, {"sha512", "sha256"}}[o.A%6]
 		dir := filepath.Join(root, "sized")
@@ -1239,8 +1289,35 @@ func runBatch(work string, b batch) batchResult {
 		wg.Wait()
 	})
 	opBarrier = nil
-	// the working directory belongs to the harness: no library call may have moved it
+	// the working directory and the environment belong to the harness: no library call may have changed them
 	var cwdMoved []mismatch
+	if now := os.Environ(); true {
+		sort.Strings(now)
+		if strings.Join(now, "\x00") != strings.Join(startEnviron, "\x00") {
+			was := map[string]bool{}
+			for _, e := range startEnviron {
+				was[e] = true
+			}
+			var diff []string
+			for _, e := range now {
+				if !was[e] {
+					diff = append(diff, "+"+e)
+				}
+				delete(was, e)
+			}
+			for e := range was {
+				diff = append(diff, "-"+e)
+			}
+			sort.Strings(diff)
+			cwdMoved = append(cwdMoved, mismatch{-1, -1, "process-environment", "", "the environment of the process at start", clip(strings.Join(diff, " "))})
+			os.Clearenv()
+			for _, e := range startEnviron {
+				if j := strings.IndexByte(e, '='); j > 0 {
+					os.Setenv(e[:j], e[j+1:])
+				}
+			}
+		}
+	}
 	if wd, err := os.Getwd(); err != nil || wd != fixedCwd {
 		cwdMoved = append(cwdMoved, mismatch{-1, -1, "process-working-directory", "", "<CWD>", strings.ReplaceAll(wd, bdir, "<BATCH>") + fmt.Sprintf(" (err=%v)", err)})
 		must(os.Chdir(fixedCwd))
@@ -1307,6 +1384,9 @@ func main() {
 	if len(os.Args) < 2 {
 		fmt.Fprintln(os.Stderr, "usage: c16 run|replay ...")
 		os.Exit(2)
+	}
+	if v, err := strconv.Atoi(os.Getenv("C16_ENV_ROUNDS")); err == nil && v > 0 {
+		envRounds = v
 	}
 	if v, err := strconv.Atoi(os.Getenv("C16_LOAD_ITER")); err == nil && v > 0 {
 		loadIterations = v
